@@ -2828,6 +2828,22 @@ class LinearOperator(object):
         # Pad the index with empty indices
         index = index + tuple(_noop_index for _ in range(ndimension - len(index)))
 
+        # Integer and tensor indices must lie in [-size, size), as for torch.Tensor indexing
+        # (several _getitem/_get_indices implementations would otherwise return empty or wrapped-around results)
+        for dim, (size, idx) in enumerate(zip(self.shape, index)):
+            if isinstance(idx, int):
+                out_of_range = not -size <= idx < size
+            elif torch.is_tensor(idx) and idx.dtype != torch.bool and idx.numel():
+                out_of_range = bool(idx.max() >= size) or bool(idx.min() < -size)
+            else:
+                out_of_range = False
+            if out_of_range:
+                raise IndexError(
+                    "index {} is out of bounds for dimension {} with size {} (LinearOperator of size {}).".format(
+                        idx, dim, size, self.shape
+                    )
+                )
+
         # Make the index a tuple again
         *batch_indices, row_index, col_index = index
 
